@@ -63,6 +63,25 @@ def _partition_seam(self, n_contexts):
     return k, sizes, starts
 
 
+_originals = {}
+
+
+def uninstall():
+    """Put the real joblib.Parallel / multiprocessing / partition function back (stub-fidelity self-test only)."""
+    global _installed
+    if not _installed:
+        return
+    import mabwiser.approximate
+    import mabwiser.base_mab
+    import mabwiser.simulator
+    mabwiser.base_mab.Parallel = _originals["Parallel"]
+    mabwiser.approximate.Parallel = _originals["Parallel"]
+    mabwiser.simulator.Parallel = _originals["Parallel"]
+    mabwiser.base_mab.mp = _originals["mp"]
+    mabwiser.base_mab.BaseMAB._partition_contexts = _real_partition
+    _installed = False
+
+
 def install():
     global _installed, _real_partition
     if _installed:
@@ -70,11 +89,14 @@ def install():
     import mabwiser.approximate
     import mabwiser.base_mab
     import mabwiser.simulator
+    _originals.setdefault("Parallel", mabwiser.base_mab.Parallel)
+    _originals.setdefault("mp", mabwiser.base_mab.mp)
     mabwiser.base_mab.Parallel = SimParallel
     mabwiser.approximate.Parallel = SimParallel
     mabwiser.simulator.Parallel = SimParallel
     mabwiser.base_mab.mp = _MPShim
-    _real_partition = mabwiser.base_mab.BaseMAB._partition_contexts
+    if _real_partition is None:
+        _real_partition = mabwiser.base_mab.BaseMAB._partition_contexts
     mabwiser.base_mab.BaseMAB._partition_contexts = _partition_seam
     logging.disable(logging.CRITICAL)
     _installed = True
